@@ -297,7 +297,7 @@ func runJwkMut(r *runner) {
 		delete(m, f)
 	case "empty":
 		m[f] = ""
-	case "null":
+	case "json-null":
 		m[f] = nil
 	case "number":
 		m[f] = 5
